@@ -28,7 +28,7 @@ func refParse(h http.Header) refDirectives {
 	d := refDirectives{MaxAge: -1}
 	for _, line := range h.Values("Cache-Control") {
 		d.HasCC = true
-		for _, part := range strings.Split(line, ",") {
+		for _, part := range splitOutsideQuotes(line) {
 			part = strings.TrimSpace(part)
 			if part == "" {
 				continue
@@ -72,6 +72,25 @@ func refParse(h http.Header) refDirectives {
 		}
 	}
 	return d
+}
+
+// splitOutsideQuotes splits a list header value at the commas that are not inside a quoted-string
+// (RFC 9110 section 5.6.4: a quoted-string may contain commas, and backslash-escaped quotes).
+func splitOutsideQuotes(s string) []string {
+	var out []string
+	start, inq := 0, false
+	for i := 0; i < len(s); i++ {
+		switch {
+		case inq && s[i] == '\\' && i+1 < len(s):
+			i++
+		case s[i] == '"':
+			inq = !inq
+		case s[i] == ',' && !inq:
+			out = append(out, s[start:i])
+			start = i + 1
+		}
+	}
+	return append(out, s[start:])
 }
 
 // refFreshUntil: the instant until which a response received at respT may be
